@@ -2,7 +2,7 @@
    harness/translate_c04.py from /repo) and the literals model/C04_Legacy.v was transcribed from: the statement
    sequences and signatures of the two legacy decoders, the version dispatch, and the reader methods they alone use
    (bytes_remaining of both readers, advance).  The literals are those of the source WITH the proposed repairs
-   F4i (bytes_remaining) and F4iii (confidence != 0); on a tree without them these lemmas fail. *)
+   F4i (bytes_remaining), F4iii (confidence != 0) and F4v (zero frames); on a tree without them these lemmas fail. *)
 From Coq Require Import String List ZArith NArith.
 Require Gen_C04.
 Import ListNotations.
@@ -70,6 +70,8 @@ Definition exp_read_v0_0_body : list string :=
         people_c.append(np.zeros(_points))
     frames_d.append(ma.stack(people_d))
     frames_c.append(np.stack(people_c))";
+    "if len(frames_d) == 0:
+    return cls(fps, np.zeros((0, 1, _points, _dims)), np.zeros((0, 1, _points)))";
     "return cls(fps, ma.stack(frames_d), ma.stack(frames_c))" ].
 Lemma read_v0_0_body_tie : Gen_C04.read_v0_0_body = exp_read_v0_0_body.
 Proof. reflexivity. Qed.
